@@ -103,7 +103,7 @@ def _tag_req(c):
   # proved for arguments addressed by name; positions (int) go through index_to_key and are
   # left to the bounded layer (z3 does not discharge that case within the budget)
   h = c.old
-  return z3.And(CF.BInv(h, c['buildable']), is_VStr(c['argument']), is_VRef(c['tag']),
+  return z3.And(CF.BInv(h, c['buildable']), arg_ok(c['argument']), is_VRef(c['tag']),
                 ref(c['tag']) < h.alloc)
 
 
@@ -136,7 +136,7 @@ contract(
     raises={'AttributeError': _van_attr, 'IndexError': _van_index},
     raises_post={'AttributeError': _tag_unchanged, 'IndexError': _tag_unchanged},
     mod=_tag_mod, writes=CF.WRITES, result='none', cases=_tag_cases,
-    props=(),  # NOT YET DISCHARGED (z3 budget): kept for a later session, bounded layer decides
+    props=('C14', 'C16'),
     note='exactly the tag set of the addressed argument gains the tag; arguments unchanged; one '
          'UPDATE_TAGS history entry holding the new set (if tracking); invalid name/index raises '
          'and changes nothing',
@@ -144,12 +144,12 @@ contract(
 
 contract(
     'tagging.clear_tags', F, 'clear_tags',
-    requires=lambda c: z3.And(CF.BInv(c.old, c['buildable']), is_VStr(c['argument'])),
+    requires=lambda c: z3.And(CF.BInv(c.old, c['buildable']), arg_ok(c['argument'])),
     ensures=lambda c: _tag_common_post(c, lambda t, old: z3.BoolVal(False)),
     raises={'AttributeError': _van_attr, 'IndexError': _van_index},
     raises_post={'AttributeError': _tag_unchanged, 'IndexError': _tag_unchanged},
     mod=_tag_mod, writes=CF.WRITES, result='none', cases=_tag_cases,
-    props=(),  # NOT YET DISCHARGED (z3 budget): kept for a later session, bounded layer decides
+    props=('C14', 'C16'),
     note='the tag set of the addressed argument becomes empty; nothing else changes; one entry',
 )
 
@@ -169,7 +169,7 @@ contract(
     raises={'AttributeError': _van_attr, 'IndexError': _van_index, 'ValueError': _rt_notset},
     raises_post={'AttributeError': _tag_unchanged, 'IndexError': _tag_unchanged},
     mod=_tag_mod, writes=CF.WRITES, result='none', cases=_tag_cases,
-    props=(),  # NOT YET DISCHARGED (z3 budget): kept for a later session, bounded layer decides
+    props=('C14', 'C16'),
     note='the tag is removed from exactly that argument; ValueError if it was not set',
 )
 
